@@ -243,6 +243,62 @@ where
              &format!("typed=({},{},{},{},{}) any=({},{},{},{},{}) header_size={}", s.count(), s.size(), s.capacity(), s.allocated(), s.remaining(),
                       a.count(), a.size(), a.capacity(), a.allocated(), a.remaining(), header_size::<A>()));
     }
+    // walking the list from the current chunk with prev()/next()/iter_prev()/iter_next() gives the same sequence,
+    // for the typed and the type-erased view alike
+    let fwd_rev = |v: Vec<usize>| -> Vec<usize> { v.into_iter().rev().collect() };
+    match (s.current_chunk(), cur_idx >= 0) {
+        (Some(c), true) => {
+            let i = cur_idx as usize;
+            let before: Vec<usize> = fwd_rev(c.iter_prev().map(|c| c.chunk_start().as_ptr() as usize).collect());
+            let after: Vec<usize> = c.iter_next().map(|c| c.chunk_start().as_ptr() as usize).collect();
+            let mut walk_back = vec![];
+            let mut k = c.prev();
+            while let Some(x) = k { walk_back.push(x.chunk_start().as_ptr() as usize); k = x.prev(); if walk_back.len() > 4096 { break; } }
+            let mut walk_fwd = vec![];
+            let mut k = c.next();
+            while let Some(x) = k { walk_fwd.push(x.chunk_start().as_ptr() as usize); k = x.next(); if walk_fwd.len() > 4096 { break; } }
+            if before != fwd[..i] || after != fwd[i + 1..] || fwd_rev(walk_back) != fwd[..i] || walk_fwd != fwd[i + 1..] {
+                st.x("chunk-walk-from-current-differs", &format!("list={fwd:?} current={i} iter_prev={before:?} iter_next={after:?}"));
+            }
+        }
+        (None, false) => {}
+        (c, _) => st.x("current-chunk-not-in-list", &format!("current={:?} idx={cur_idx}", c.map(|c| c.chunk_start().as_ptr() as usize))),
+    }
+    let any_back: Vec<usize> = a.big_to_small().map(|c| c.chunk_start().as_ptr() as usize).collect();
+    let any_cur = a.current_chunk().map(|c| c.chunk_start().as_ptr() as usize);
+    let mut any_ok = fwd_rev(any_back) == fwd && any_cur == cur_start;
+    if let Some(c) = a.current_chunk() {
+        if cur_idx >= 0 {
+            let i = cur_idx as usize;
+            let before: Vec<usize> = fwd_rev(c.iter_prev().map(|c| c.chunk_start().as_ptr() as usize).collect());
+            let after: Vec<usize> = c.iter_next().map(|c| c.chunk_start().as_ptr() as usize).collect();
+            any_ok &= before == fwd[..i] && after == fwd[i + 1..];
+            any_ok &= c.prev().map(|c| c.chunk_start().as_ptr() as usize) == i.checked_sub(1).map(|j| fwd[j]);
+            any_ok &= c.next().map(|c| c.chunk_start().as_ptr() as usize) == fwd.get(i + 1).copied();
+            any_ok &= (c.size(), c.capacity(), c.allocated(), c.remaining(), c.bump_position().as_ptr() as usize)
+                == (chunks[i].1, chunks[i].3, chunks[i].4, chunks[i].5, chunks[i].2);
+        }
+    }
+    // the conversions between the two views agree with asking the arena directly
+    let conv: bump_scope::stats::AnyStats<'_> = s.into();
+    any_ok &= (conv.count(), conv.size(), conv.capacity(), conv.allocated(), conv.remaining()) == (a.count(), a.size(), a.capacity(), a.allocated(), a.remaining());
+    if let Some(c) = s.current_chunk() {
+        let ac: bump_scope::stats::AnyChunk<'_> = c.into();
+        any_ok &= (ac.chunk_start(), ac.size(), ac.bump_position(), ac.capacity(), ac.allocated(), ac.remaining(), ac.content_start(), ac.content_end(), ac.chunk_end())
+            == (c.chunk_start(), c.size(), c.bump_position(), c.capacity(), c.allocated(), c.remaining(), c.content_start(), c.content_end(), c.chunk_end());
+    }
+    if !any_ok {
+        st.x("any-stats-differ-from-typed-stats", &format!("walks or conversions of the type-erased view differ: list={fwd:?} current={cur_idx} header_size={}", header_size::<A>()));
+    }
+    // per-chunk identities
+    for c in &chunks {
+        if c.4 + c.5 != c.3 || c.3 != c.7 - c.6 || c.8 != c.0 + c.1 || !(c.0 <= c.6 && c.7 <= c.8) {
+            st.x("stats-identity", &format!("chunk start={} size={} capacity={} allocated={} remaining={} content={}..{} end={}", c.0, c.1, c.3, c.4, c.5, c.6, c.7, c.8));
+        }
+    }
+    if chunks.iter().map(|c| c.1).sum::<usize>() != s.size() || chunks.iter().map(|c| c.3).sum::<usize>() != s.capacity() {
+        st.x("stats-identity", &format!("totals are not the sums over the chunks: size={} capacity={}", s.size(), s.capacity()));
+    }
 }
 
 pub fn flush(st: &mut St) {
